@@ -8,7 +8,7 @@ import idx_common as I
 ID = "C15"
 LEAN_MODULES = ["CatiiProps.C15"]
 RULE = ("(a) the histories of C06: after every library-chosen normalisation (shift_common(), append, filtered, collapsed, "
-        "from_array without a common) count(common) == max count, ties either way; (b) pairs of indexes reached by "
+        "from_array without a common - with and without a value mapping (injective / many-to-one) and supplied counts) count(common) == max count, ties either way; (b) pairs of indexes reached by "
         "different histories: direct twin (must be ==), re-encoded twin with another common, one-cell difference, other "
         "shape (must be !=), a != b is not (a == b) and never raises, reflexive/symmetric/transitive, non-index -> False. "
         "Non-trivial = at least one entry; distinct by the pair")
@@ -69,17 +69,39 @@ def run(ctx):
         shape = (N,) if nd == 1 else (N, ctx.rng.randrange(1, 4))
         vals = ctx.rng.choice([[0, 1], [0, 1, 2], [-1, 0, 3], [5, 7, 9, 11, 13, 2]])
         a = np.array(ctx.rng.choices(vals, k=int(np.prod(shape))), dtype=np.int64).reshape(shape)
-        ix = iindex.from_array(a)
-        ctx.case({"from_array": a.tolist()})
-        ctx.hit("from_array")
-        v, c = np.unique(a, return_counts=True)
-        cc = int(np.count_nonzero(a == ix.common))
+        # the library also chooses when a value mapping (injective or many-to-one) and/or the value counts are supplied
+        mkind = ctx.rng.choice(["none", "none", "injective", "many_to_one", "many_to_one"])
+        present = sorted(set(a.reshape(-1).tolist()))
+        if mkind == "none":
+            mapping = None
+        elif mkind == "injective":
+            mapping = dict(zip(present, ctx.rng.sample(range(-3, 30), len(present))))
+        else:
+            mapping = {v: ctx.rng.choice([10, 20, 30]) for v in present}
+        counts = None
+        if ctx.rng.random() < 0.3:
+            vv, cn = np.unique(a, return_counts=True)
+            counts = {int(x): int(y) for x, y in zip(vv.tolist(), cn.tolist())}
+        desc = {"from_array": a.tolist(), "mapping": None if mapping is None else {str(k): v for k, v in mapping.items()},
+                "counts": counts is not None}
+        kw = {}
+        if mapping is not None:
+            kw["mapping"] = dict(mapping)
+        if counts is not None:
+            kw["counts"] = dict(counts)
+        ix = iindex.from_array(a, **kw)
+        mapped = a if mapping is None else np.vectorize(lambda x: mapping[int(x)], otypes=[np.int64])(a)
+        ctx.case(desc)
+        ctx.hit("from_array/" + mkind + ("/counts" if counts is not None else ""))
+        v, c = np.unique(mapped, return_counts=True)
+        cc = int(np.count_nonzero(mapped == ix.common))
         if cc != int(c.max()):
             ctx.oracle_fail("from_array chose common %s (%d cells) but %s occurs %d times" % (
-                ix.common, cc, int(v[int(np.argmax(c))]), int(c.max())), {"from_array": a.tolist()},
+                ix.common, cc, int(v[int(np.argmax(c))]), int(c.max())), desc,
                 cls="C15-common-not-most-frequent")
-        reqs.append({"op": "iidx", "m": "from_array", "arr": {"shape": list(shape), "data": a.reshape(-1).tolist()}})
-        pend.append(({"from_array": a.tolist()}, ("common", int(ix.common))))
+        if mapping is None and counts is None:
+            reqs.append({"op": "iidx", "m": "from_array", "arr": {"shape": list(shape), "data": a.reshape(-1).tolist()}})
+            pend.append((desc, ("common", int(ix.common))))
     # equality across histories
     for _ in range(ctx.n(120)):
         steps = hist.run_history(ctx.rng, ctx.rng.randrange(0, 6), ndim=ctx.rng.choice([1, 2]),
